@@ -68,13 +68,13 @@ requires the type information from the compiled sources.`, pkg.PkgPath, pkg.Erro
 				if genDecl, ok := decl.(*ast.GenDecl); ok {
 					converters, err := parseGenDecl(pkg.Fset, pkg.Types, genDecl)
 					if err != nil {
-						location := pkg.Fset.PositionFor(genDecl.Pos(), false).String()
+						location := pkg.Fset.Position(genDecl.Pos()).String()
 						return rawConverters, fmt.Errorf("%s: %s", location, err)
 					}
 					rawConverters = append(rawConverters, converters...)
 				} else if funcDecl, ok := decl.(*ast.FuncDecl); ok {
 					if err := checkNoMarker(funcDecl.Doc, token.FUNC); err != nil {
-						location := pkg.Fset.PositionFor(funcDecl.Pos(), false).String()
+						location := pkg.Fset.Position(funcDecl.Pos()).String()
 						return rawConverters, fmt.Errorf("%s: %s", location, err)
 					}
 				}
@@ -89,7 +89,7 @@ func parseFunctions(fset *token.FileSet, pkg *types.Package, decl *ast.GenDecl, 
 		return nil, fmt.Errorf("%s must be defined on %q-block but was %q", converterMarker, token.VAR, decl.Tok.String())
 	}
 
-	location := fset.PositionFor(decl.Pos(), false)
+	location := fset.Position(decl.Pos())
 	converterLines := parseRawLines(fileWithLine(location), comments)
 
 	result := map[string]config.RawLines{}
@@ -103,7 +103,7 @@ func parseFunctions(fset *token.FileSet, pkg *types.Package, decl *ast.GenDecl, 
 		}
 		name := value.Names[0].Name
 
-		location := fileWithLine(fset.PositionFor(value.Pos(), false))
+		location := fileWithLine(fset.Position(value.Pos()))
 		result[name] = parseRawLines(location, parse.CommentToString(value.Doc))
 	}
 
@@ -190,7 +190,7 @@ func parseInterface(fset *token.FileSet, pkg *types.Package, typeSpec *ast.TypeS
 	}
 	typeName := typeSpec.Name.String()
 
-	location := fset.PositionFor(typeSpec.Pos(), false)
+	location := fset.Position(typeSpec.Pos())
 	converterLines := parseRawLines(fileWithLine(location), declDocs)
 	methods, err := parseInterfaceMethods(fset, astInterface)
 	if err != nil {
@@ -215,7 +215,7 @@ func parseInterfaceMethods(location *token.FileSet, inter *ast.InterfaceType) (m
 		}
 		name := method.Names[0].String()
 
-		location := location.PositionFor(method.Pos(), false)
+		location := location.Position(method.Pos())
 		result[name] = parseRawLines(fileWithLine(location), parse.CommentToString(method.Doc))
 	}
 	return result, nil
